@@ -16,14 +16,14 @@ import core
 
 READY = True
 MANIFEST = dict(
-    technique='Lean 4 theorems over a transcribed schedule model (closed form for all draws/parameter sets, induction over the event list for the id window); translator regenerates the parameter sets; exhaustive correspondence over every random draw',
-    text='Theorems (Properties/C15.lean) prove count, first delay, first-gap window, doubling-with-cap for every parameter set and every outcome of both random draws, and that own message ids are skipped while inside the bounded window, for every event sequence. The real parameter sets are regenerated into Generated/UdpParams.lean on each run; the model is compared with _repeated_enqueue_msg on every draw.',
-    note='Trusted: Lean kernel; translator + harness; float summation (<1us) and the 10 ms send raster are outside the model.',
+    technique='Lean 4 theorems over a transcribed schedule model (closed form for all draws/parameter sets), an invariant of the transcribed send loop (any calls, any stop time, any number of iterations) and induction over the event list for the id window; translator regenerates parameter sets, loop constants, queue key and the sender table; exhaustive correspondence over every random draw, virtual-clock correspondence of the real send loop',
+    text='Theorems (Properties/C15.lean) prove count, first delay, first-gap window, doubling-with-cap for every parameter set and every outcome of both random draws, and that own message ids are skipped while inside the bounded window, for every event sequence. Send loop: no transmission before its scheduled time (also while stopping), none more than one idle sleep late, every accepted entry exactly once, nothing lost at stop; every WSDiscovery sender uses the parameter set of its destination (generated table, decide). The real parameter sets, sleeps, queue key and sender table are regenerated into Generated/UdpParams.lean on each run; the model is compared with _repeated_enqueue_msg on every draw and with the real _run_send on a virtual clock.',
+    note='Trusted: Lean kernel; translator + harness; float summation (<1us); calls of other threads are observed by the loop at the end of a sleep; sending takes no model time.',
     ref='5 C15')
 DRIVERS = ['drv_c15']
-RULE = ('one case = (parameter set, initial-delay draw, first-gap draw) or one known-id event sequence; all cases are '
+RULE = ('one case = (parameter set, initial-delay draw, first-gap draw), one known-id event sequence, one send-loop script (calls + stop time) or one sender; all cases are '
         'distinct by construction (enumeration); non-trivial = schedule has at least one repetition / sequence has a recv')
-TRUSTED = ['float summation of send times (error < 1 us, quantised to us)', 'the 10 ms raster of the send loop is not modelled',
+TRUSTED = ['float summation of send times (error < 1 us, quantised to us)', 'send loop: socket send takes no model time; calls of other threads take effect at their own time but are seen by the loop at the end of its sleep',
            'random.randint / randrange return values inside their documented ranges']
 ASSUMPTIONS = ['time.time/random patched in-process; sockets of NetworkingThread not created']
 
@@ -42,10 +42,54 @@ def translate(ctx):
 
     def p(x):
         return f'⟨{x.max_initial_delay_ms}, {x.repeat}, {x.min_delay_ms}, {x.max_delay_ms}, {x.upper_delay_ms}⟩'
-    src = ('import SdcModel.UdpRepeat\nnamespace Sdc.Generated\nopen Sdc.UdpRepeat\n'
+    import dataclasses
+    key = [f.name for f in dataclasses.fields(nt.NetworkingThread._EnqueuedMessage) if f.compare]
+    senders = sender_table(nt)
+    src = ('import SdcModel.UdpRepeat\nimport SdcModel.UdpSendLoop\nnamespace Sdc.Generated\nopen Sdc.UdpRepeat\n'
            f'def unicast : Params := {p(u)}\ndef multicast : Params := {p(m)}\n'
-           f'def knownIdsMaxlen : Nat := {th._known_message_ids.maxlen}\nend Sdc.Generated\n')
+           f'def knownIdsMaxlen : Nat := {th._known_message_ids.maxlen}\n'
+           '/-- SEND_LOOP_BUSY_SLEEP, SEND_LOOP_IDLE_SLEEP in µs -/\n'
+           f'def loopCfg : Sdc.UdpSendLoop.Cfg := ⟨{round(nt.SEND_LOOP_BUSY_SLEEP * 1e6)}, {round(nt.SEND_LOOP_IDLE_SLEEP * 1e6)}⟩\n'
+           '/-- the compared fields of `_EnqueuedMessage`, in dataclass order -/\n'
+           'def queueKey : List String := [' + ', '.join(f'"{k}"' for k in key) + ']\n'
+           '/-- every `_send_*` of WSDiscovery: (name, destination is the multicast address, parameter set handed over) -/\n'
+           'def senders : List (String × Bool × Params) := [' +
+           ', '.join(f'("{n}", {"true" if mc else "false"}, {p(ps)})' for n, mc, ps in senders) + ']\n'
+           'end Sdc.Generated\n')
     core.write_if_changed(core.GENERATED + '/UdpParams.lean', src)
+
+
+def sender_table(nt):
+    """Call every `_send_*` method of the real WSDiscovery with a recording networking thread:
+    [(method name, destination is the multicast group, parameter set handed to add_outbound_message)]."""
+    import inspect
+
+    from lxml import etree
+    from sdc11073.wsdiscovery import wsdimpl
+    from sdc11073.wsdiscovery.common import MULTICAST_IPV4_ADDRESS
+    from sdc11073.wsdiscovery.service import Service
+    from sdc11073.xml_types import wsd_types
+    wsd = wsdimpl.WSDiscovery('127.0.0.1')
+    calls = []
+
+    class Rec:
+        def add_outbound_message(self, msg, addr, port, params):
+            calls.append((addr, params))
+    wsd._networking_thread = Rec()
+    service = Service([etree.QName('http://x', 'T')], wsd_types.ScopesType('http://scope/a'), ['http://127.0.0.1:1/x'],
+                      'urn:uuid:00000000-0000-0000-0000-000000000001', '1', metadata_version=1)
+    values = {'service': service, 'services': [service], 'relates_to': 'urn:uuid:1', 'addr': ('127.0.0.9', 4444),
+              'types': None, 'scopes': None, 'epr': 'urn:uuid:2'}
+    table = []
+    for name, fn in sorted(inspect.getmembers(wsdimpl.WSDiscovery, inspect.isfunction)):
+        if not name.startswith('_send_'):
+            continue
+        args = [values[p] for p in list(inspect.signature(fn).parameters)[1:]]
+        calls.clear()
+        fn(wsd, *args)
+        for addr, params in calls:
+            table.append((name, addr == MULTICAST_IPV4_ADDRESS, params))
+    return table
 
 
 def impl_schedule(nt, th, params, init, d):
@@ -125,6 +169,159 @@ def run(ctx):
     run_known_ids(ctx, nt, th)
     # ---- back-pressure: the bounded send queue is full while a message is enqueued; nothing may be dropped
     run_backpressure(ctx, nt)
+    # ---- the send loop on a virtual clock: transmissions vs schedule, several overlapping messages, stop while pending
+    run_send_loop(ctx, nt)
+    # ---- glue: every sender hands over the parameter set of its destination
+    for name, mc, ps in sender_table(nt):
+        want = nt.MULTICAST_REPEAT_PARAMS if mc else nt.UNICAST_REPEAT_PARAMS
+        case = {'sender': name, 'multicast_destination': mc}
+        if ps != want:
+            ctx.fail('retransmission-schedule:wrong-parameter-set',
+                     f'{name} sends to a {"multicast" if mc else "unicast"} destination with {ps}: {1 + ps.repeat} transmissions instead of {1 + want.repeat}', case)
+        ctx.case(case, nontrivial=True)
+        ctx.count('senders')
+
+
+class _VClock:
+    def __init__(self):
+        self.now = 0
+
+
+def loop_script(rng, nt, k):
+    """calls of add_outbound_message at times that never fall on the loop's raster (…250 µs) and one schedule_stop (…500 µs)"""
+    sets = [nt.UNICAST_REPEAT_PARAMS, nt.MULTICAST_REPEAT_PARAMS]
+    adds = []
+    horizon = rng.choice([200, 600, 1500, 3000])
+    for i in range(rng.choice([1, 2, 2, 3, 4, 6])):
+        if rng.random() < 0.7:
+            p = rng.choice(sets)
+            prm = [p.max_initial_delay_ms, p.repeat, p.min_delay_ms, p.max_delay_ms, p.upper_delay_ms]
+        else:
+            mn = rng.randint(0, 60)
+            mx = mn + rng.randint(1, 60)
+            prm = [rng.randint(0, 300), rng.randint(0, 5), mn, mx, rng.choice([mx, 2 * mx, rng.randint(1, 300)])]
+        at = rng.choice([0, 0, rng.randrange(0, 30), rng.randrange(0, horizon)]) * 1000 + 250
+        init = rng.choice([0, prm[0], rng.randint(0, prm[0])])
+        d = rng.randrange(prm[2], prm[3])
+        adds.append({'at': at, 'msg': i, 'params': prm, 'init': init, 'd': d})
+    adds.sort(key=lambda a: (a['at'], a['msg']))
+    quit_at = rng.choice([rng.randrange(0, horizon + 400), rng.randrange(0, horizon + 400), horizon + 3000]) * 1000 + 500
+    return {'adds': adds, 'quit_at': quit_at}
+
+
+def impl_send_loop(nt, script):
+    """The real `_run_send` (and `add_outbound_message`, `schedule_stop`) on a virtual clock: `time.sleep` advances the clock and
+    lets the scripted calls of the other threads happen at their times. Returns ([(instant_us, msg, repeat)], [(msg, repeat,
+    send_time_us)] = what was put on the queue)."""
+    th = _mk_thread()[1]
+    clock = _VClock()
+    events = sorted([(a['at'], 0, a) for a in script['adds']] + [(script['quit_at'], 1, None)], key=lambda e: (e[0], e[1]))
+    pending = list(events)
+    sent, queued = [], []
+
+    class FakeRandom:
+        draw = None
+
+        @staticmethod
+        def randint(a, b):
+            return FakeRandom.draw[0]
+
+        @staticmethod
+        def randrange(a, b=None):
+            return FakeRandom.draw[1]
+
+    def do_due(target):
+        while pending and pending[0][0] <= target:
+            t, kind, a = pending.pop(0)
+            clock.now = max(clock.now, t)
+            if kind == 1:
+                th.schedule_stop()
+            else:
+                msg = mock.MagicMock()
+                msg.p_msg.header_info_block.MessageID = f'm{a["msg"]}'
+                msg.verif_id = a['msg']
+                FakeRandom.draw = (a['init'], a['d'])
+                before = len(th._send_queue.queue)
+                th.add_outbound_message(msg, '239.255.255.250', 3702, nt._UdpRepeatParams(*a['params']))
+                for e in list(th._send_queue.queue):
+                    if e.msg.created_message is msg:
+                        queued.append((a['msg'], e.repeat, round(e.send_time * 1e6)))
+                assert len(th._send_queue.queue) >= before
+
+    class FakeTime:
+        @staticmethod
+        def time():
+            return clock.now / 1e6
+
+        @staticmethod
+        def sleep(dt):
+            target = clock.now + round(dt * 1e6)
+            do_due(target)
+            clock.now = target
+            if clock.now > 60_000_000:
+                raise RuntimeError('send loop still running after 60 virtual seconds')
+    key = mock.MagicMock()
+    th._outbound_selector = mock.MagicMock()
+    th._outbound_selector.select = lambda timeout=None: [(key, None)]
+    th._send_msg = lambda q_msg, sock: sent.append((clock.now, q_msg.msg.created_message.verif_id, q_msg.repeat))
+    with mock.patch.object(nt, 'time', FakeTime), mock.patch.object(nt, 'random', FakeRandom):
+        do_due(0)
+        th._run_send()
+    return sorted(sent), sorted(set(queued))
+
+
+def loop_oracle(nt, script, sent, queued):
+    """the statement at the level of transmissions: every accepted message 1 + repeat times, each transmission not before
+    its scheduled time and less than one idle sleep after it"""
+    idle = round(nt.SEND_LOOP_IDLE_SLEEP * 1e6)
+    sched = {(m, r): t for m, r, t in queued}
+    for a in script['adds']:
+        mine = [s for s in sent if s[1] == a['msg']]
+        want = (1 + a['params'][1]) if a['at'] < script['quit_at'] else 0
+        if len(mine) != want:
+            return 'count', f'message {a["msg"]} (call at {a["at"]} us, stop at {script["quit_at"]} us) transmitted {len(mine)} times instead of {want}'
+        if sorted(r for _, _, r in mine) != list(range(1, want + 1)):
+            return 'count', f'message {a["msg"]}: repetition numbers {sorted(r for _, _, r in mine)}'
+    for t, m, r in sent:
+        st = sched.get((m, r))
+        if st is None:
+            return 'count', f'transmission {(t, m, r)} was never scheduled'
+        if t < st:
+            return 'early', f'message {m} transmission {r} left at {t} us, scheduled for {st} us'
+        if t >= st + idle:
+            return 'late', f'message {m} transmission {r} left at {t} us, scheduled for {st} us (more than one idle sleep late)'
+    return None
+
+
+def run_send_loop(ctx, nt, scripts=None):
+    rng = ctx.subrng('loop')
+    busy, idle = round(nt.SEND_LOOP_BUSY_SLEEP * 1e6), round(nt.SEND_LOOP_IDLE_SLEEP * 1e6)
+    todo = scripts if scripts is not None else [loop_script(rng, nt, k) for k in range(ctx.n(150, 3000))]
+    lines, impls = [], []
+    for script in todo:
+        try:
+            sent, queued = impl_send_loop(nt, script)
+        except Exception as ex:  # noqa: BLE001
+            ctx.fail('retransmission-loop:raised', repr(ex), {'loop_script': script})
+            continue
+        bad = loop_oracle(nt, script, sent, queued)
+        if bad:
+            ctx.fail('retransmission-loop:' + bad[0], bad[1], {'loop_script': script, 'transmissions': sent[:40]})
+        ctx.case({'loop_script': script}, nontrivial=len(script['adds']) > 1 or script['quit_at'] < 10 ** 7,
+                 sample={'loop_script': script, 'transmissions_us': sent[:12]} if len(impls) == 1 else None)
+        ctx.count('loop-scripts')
+        ctx.count('loop:stop-while-pending' if any(t > script['quit_at'] for t, _, _ in sent) else 'loop:stop-after-drain')
+        if any(a['at'] >= script['quit_at'] for a in script['adds']):
+            ctx.count('loop:add-after-stop')
+        lines.append(f'loop {busy} {idle} {script["quit_at"]} 200000 ' +
+                     ' '.join(' '.join(map(str, [a['at'], a['msg'], *a['params'], a['init'], a['d']])) for a in script['adds']))
+        impls.append((script, 'done ' + ' '.join(f'{t}:{m}:{r}' for t, m, r in sent)))
+    if ctx.driver_ok and lines:
+        out = ctx.driver('drv_c15', lines)
+        for (script, impl), o in zip(impls, out):
+            if o.strip() != impl.strip():
+                ctx.disagree('send loop: transmissions (instant:msg:repeat) of run(start adds quitAt) == real _run_send on the virtual clock',
+                             {'loop_script': script}, o[:400], impl[:400])
 
 
 def run_backpressure(ctx, nt):
@@ -242,6 +439,24 @@ def _impl_recv(nt, th, mid):
 def search(ctx):
     """Failing-input search: the oracle over the complete draw space of the real parameter sets."""
     nt, th = _mk_thread()
+    rng = ctx.subrng('loop-search')
+    for k in range(2000):
+        script = loop_script(rng, nt, k)
+        try:
+            sent, queued = impl_send_loop(nt, script)
+            bad = loop_oracle(nt, script, sent, queued)
+        except Exception as ex:  # noqa: BLE001
+            bad = ('raised', repr(ex))
+            sent = []
+        if bad:
+            ctx.fail('retransmission-loop:' + bad[0], bad[1], {'loop_script': script, 'transmissions': sent[:40]})
+            return
+    for name, mc, ps in sender_table(nt):
+        want = nt.MULTICAST_REPEAT_PARAMS if mc else nt.UNICAST_REPEAT_PARAMS
+        if ps != want:
+            ctx.fail('retransmission-schedule:wrong-parameter-set', f'{name}: {ps} for a {"multicast" if mc else "unicast"} destination',
+                     {'sender': name, 'multicast_destination': mc})
+            return
     for name, p in (('unicast', nt.UNICAST_REPEAT_PARAMS), ('multicast', nt.MULTICAST_REPEAT_PARAMS)):
         if not p.min_delay_ms < p.max_delay_ms:
             try:
@@ -275,6 +490,17 @@ def replay(ctx, obj):
             else:
                 res = _impl_recv(nt, th2, mid)
         return res == 'dispatch'
+    if 'loop_script' in case:
+        c2 = core.Ctx('C15', 'quick', 0)
+        c2.driver_ok = False
+        run_send_loop(c2, nt, [case['loop_script']])
+        for f in c2.failures:
+            print('  ', f['signature'], f['detail'])
+        return bool(c2.failures)
+    if 'sender' in case:
+        bad = [r for r in sender_table(nt) if r[0] == case['sender'] and r[2] != (nt.MULTICAST_REPEAT_PARAMS if r[1] else nt.UNICAST_REPEAT_PARAMS)]
+        print('  ', bad)
+        return bool(bad)
     if 'backpressure' in case:
         c2 = core.Ctx('C15', 'quick', 0)
         run_backpressure(c2, nt)
